@@ -50,9 +50,38 @@ def path_atoms(f, path, decs):
                     a2 = atom_of(('bin', rv['op'], x, y), val, None)
                     if a2 is not None:
                         a = a2
+        if a is not None and a[0] in ('is', 'isnot') and peel_c(a[1])[0] == 'phi' and ptr < len(path):
+            # a variant test of a merged value (`match helper()` with the helper spliced in: the result local has one definition per
+            # return of the helper): take the definition executed on this very path
+            loc = _discr_site(f, t['d'])
+            if loc is not None:
+                db, di, src = loc
+                pidx = max((k for k, bb in enumerate(path[:ptr + 1]) if bb == db), default=None)
+                if pidx is not None:
+                    x = f.expr_operand_on_path({'k': 'copy', 'p': {'l': src, 'pr': []}}, path, pidx, di)
+                    if peel_c(x)[0] != 'phi':
+                        a = (a[0], canon(x)) + tuple(a[2:])
         ptr += 1
         out.append((b, untry(a)))
     return out
+
+
+def _discr_site(f, op):
+    """(block, statement index, local) of the `discriminant(local)` statement a switch operand chases to (single definitions only)"""
+    for _ in range(10):
+        if not (op.get('k') in ('copy', 'move') and not op['p']['pr']):
+            return None
+        ds = [d for d in f._defs() if d[0] == op['p']['l']]
+        if len(ds) != 1 or ds[0][2] == 'T':
+            return None
+        st = f.stmts(ds[0][1])[ds[0][2]]
+        if st['r']['k'] == 'use':
+            op = st['r']['o']
+            continue
+        if st['r']['k'] == 'discr' and not st['r']['p']['pr']:
+            return ds[0][1], ds[0][2], st['r']['p']['l']
+        return None
+    return None
 
 
 def peel_c(t):
